@@ -114,7 +114,11 @@ class Dem:
                 half = max(1, n_pop // 2)
                 PX[half:] = xl - 2 * w + rng.random_sample(PX[half:].shape) * (xu - xl + 4 * w)
                 idx[:, 0] = rng.randint(0, half, size=n_mat)
+            # how the operator object came to hold its parameters: built with them / built with other values and
+            # then assigned / deep-copied from a template and then assigned; and whether a second operator with other
+            # parameters was built (and used) after it
             yield {"F": gen_F(rng), "gamma": gen_gamma(rng), "dtype": dtype, "outside": bool(special == 1 and bounded),
+                   "setup": ["ctor", "ctor", "ctor", "assign", "copy-assign"][rng.randint(5)], "rival": bool(rng.randint(4) == 0),
                    "repair": REPAIR_KINDS[t % 4] if bounded else None,
                    "mode": ["do-idx", "do-pop", "mutation"][rng.randint(3)], "warm": bool(rng.randint(3) == 0),
                    "repair_as": ["name", "name", "name", "callable", "bad-name"][rng.randint(5)] if rng.randint(3) == 0 else "name",
@@ -130,7 +134,7 @@ class Dem:
     def run(case, replay=None):
         from pymoo.core.population import Population
         from pymoode.operators.dem import DEM
-        cfg = {k: case.get(k) for k in ("F", "gamma", "repair", "mode", "warm", "repair_as", "seed", "dtype", "outside")}
+        cfg = {k: case.get(k) for k in ("F", "gamma", "repair", "mode", "warm", "repair_as", "seed", "dtype", "outside", "setup", "rival")}
         rec = Record("dem", cfg, {k: case[k] for k in ("xl", "xu", "PX", "idx")})
         PX = np.array(case["PX"], dtype=float, copy=True)
         as_int = case.get("dtype") == "int"
@@ -155,8 +159,32 @@ class Dem:
             rep_arg = _dm.REPAIRS[rep_arg]          # a callable is used as given
         elif case.get("repair_as") == "bad-name":
             rep_arg = "bounce_back"                 # not a registry key: must be refused with KeyError
+        def other_F(F):
+            if F is None:
+                return None
+            if isinstance(F, tuple):
+                return (F[0] * 0.5 + 0.05, F[1] * 0.5 + 0.35)
+            return F * 0.5 + 0.3
+        setup = case.get("setup", "ctor") if F is not None else "ctor"
         try:
-            op = DEM(F=F, gamma=case["gamma"], de_repair=rep_arg, n_diffs=(n_par - 1) // 2)
+            if setup == "ctor":
+                op = DEM(F=F, gamma=case["gamma"], de_repair=rep_arg, n_diffs=(n_par - 1) // 2)
+            else:
+                # same kind of scale factor (scalar / range) with other values, the intended ones assigned afterwards
+                import copy as _copy
+                op = DEM(F=other_F(F), gamma=case["gamma"], de_repair=rep_arg, n_diffs=(n_par - 1) // 2)
+                if setup == "copy-assign":
+                    op = _copy.deepcopy(op)
+                op.F = F
+                rec.tags.add("setup:" + setup)
+            if case.get("rival") and case.get("repair_as") != "bad-name":
+                rg = case["gamma"]
+                rival = DEM(F=other_F(F) if F is not None else 0.9, gamma=None if rg is not None else 0.5,
+                            de_repair="to-bounds", n_diffs=(n_par - 1) // 2)
+                st0 = np.random.get_state()
+                rival.de_mutation(X.copy())
+                np.random.set_state(st0)
+                rec.tags.add("rival-operator")
             if case.get("repair_as") == "bad-name":
                 rec.err = "ctor accepted an unknown repair name"
                 return rec
@@ -384,6 +412,7 @@ class Dex:
             yield {"variant": ["bin", "exp"][t % 2], "CR": gen_CR(rng), "alo": bool(rng.randint(8) > 0),
                    "as_callable": bool(rng.randint(6) == 0), "bad_variant": bool(rng.randint(40) == 0),
                    "int_targets": int_targets,
+                   "setup": ["ctor", "ctor", "assign", "copy-assign"][rng.randint(4)],
                    "xl": xl, "xu": xu, "Xt": Xt, "V": V, "seed": int(rng.randint(2**31 - 1))}
 
     @staticmethod
@@ -397,7 +426,7 @@ class Dex:
         from pymoo.core.population import Population
         from pymoode.operators.dex import DEX
         from pymoode.operators.variant import DifferentialVariant
-        rec = Record("dex", {k: case.get(k) for k in ("variant", "CR", "alo", "as_callable", "bad_variant", "seed", "int_targets")},
+        rec = Record("dex", {k: case.get(k) for k in ("variant", "CR", "alo", "as_callable", "bad_variant", "seed", "int_targets", "setup")},
                      {k: case[k] for k in ("xl", "xu", "Xt", "V")})
         Xt = np.array(case["Xt"], dtype=float, copy=True)
         V = np.array(case["V"], dtype=float, copy=True)
@@ -415,7 +444,18 @@ class Dex:
                     v = "binomial"                         # not a known name: the constructor must refuse it
                 elif case.get("as_callable"):
                     v = {"bin": _dexmod.cross_binomial, "exp": _dexmod.cross_exp}[v]      # user-supplied callable
-                op = DEX(variant=v, CR=case["CR"], at_least_once=case["alo"])
+                setup = case.get("setup", "ctor")
+                if setup == "ctor":
+                    op = DEX(variant=v, CR=case["CR"], at_least_once=case["alo"])
+                else:
+                    # built (or deep-copied from a template built) with another rate and flag, the intended ones assigned
+                    import copy as _copy
+                    op = DEX(variant=v, CR=0.5 if case["CR"] != 0.5 else 0.25, at_least_once=not case["alo"])
+                    if setup == "copy-assign":
+                        op = _copy.deepcopy(op)
+                    op.CR = case["CR"]
+                    op.at_least_once = case["alo"]
+                    rec.tags.add("setup:" + setup)
                 matings = DifferentialVariant.merge_columnwise(pop, mut)
                 rec.out["U"] = np.array(op.do(prob, matings).get("X"), dtype=float)
             except Exception as e:
@@ -606,7 +646,17 @@ Mask.ORACLES = {"C12": Mask.oracle_C12, "C19": Mask.oracle_C12}
 # des
 # =============================================================================================
 def gen_ranks(rng, n):
-    k = rng.randint(6)
+    k = rng.randint(9)
+    if k == 6:
+        return [float(x) / 2.0 for x in rng.randint(0, 6, size=n)]                  # half-integer ranks
+    if k == 7:
+        return [float(np.ceil(x * 10) / 10) for x in rng.random_sample(n)]         # percentile ranks in (0, 1]
+    if k == 8:
+        r = [float(x) for x in rng.randint(0, 4, size=n)]
+        for i in range(n):
+            if rng.randint(4) == 0:
+                r[i] = float("inf")                                                # "not ranked" marker
+        return r
     if k == 0:
         return None                                    # attribute absent
     if k == 1:
@@ -622,6 +672,17 @@ def gen_ranks(rng, n):
     if k == 4:
         return list(range(n))                           # DE: rank = position
     return [int(x) for x in np.sort(rng.randint(0, 4, size=n))]   # sorted fronts
+
+
+def ranks_for_model(ranks, n):
+    """integer ranks for the Lean model (-1 = missing). Real-valued ranks are replaced by their dense order:
+    the model only sorts, so the same order and the same ties give the same answer."""
+    if ranks is None:
+        return [-1] * n
+    if any(r is not None and (not np.isfinite(r) or float(r) != int(r)) for r in ranks):
+        vals = sorted(set(float(r) for r in ranks if r is not None))
+        return [-1 if r is None else vals.index(float(r)) for r in ranks]
+    return [-1 if r is None else int(r) for r in ranks]
 
 
 def ranks_eff(ranks, n):
@@ -694,6 +755,9 @@ class Des:
             # (the 'current-to-*' layouts refuse this call with a ValueError; the others accept it)
             n_sel = n_pop if (rng.randint(4) or kind.startswith("current")) else int(rng.randint(1, n_pop + 1))
             yield {"kind": kind, "n_pop": n_pop, "n_sel": n_sel, "n_par": n_par, "ranks": gen_ranks(rng, n_pop),
+                   # individuals that also carry a crowding attribute (populations that came out of a survival)
+                   "crowd_attr": [float(x) for x in np.where(rng.random_sample(n_pop) < 0.25, np.inf, rng.random_sample(n_pop))]
+                   if rng.randint(3) == 0 else None,
                    "via": ["_do", "do"][rng.randint(2)], "seed": int(rng.randint(2**31 - 1))}
 
     @staticmethod
@@ -707,20 +771,23 @@ class Des:
                [{"kind": "ranked", "n_pop": 9, "n_par": 5, "ranks": [2, 0, 1, 1, 0, 2, 1, 0, 2], "via": "do", "seed": 3}]
 
     @staticmethod
-    def make_pop(n_pop, ranks):
+    def make_pop(n_pop, ranks, crowd=None):
         from pymoo.core.population import Population
         pop = Population.new("X", np.zeros((n_pop, 1)))
         if ranks is not None:
             for i, r in enumerate(ranks):
                 if r is not None:
                     pop[i].set("rank", r)
+        if crowd is not None:
+            for i, c in enumerate(crowd):
+                pop[i].set("crowding", c)
         return pop
 
     @staticmethod
     def run(case, replay=None):
         from pymoode.operators.des import DES
         rec = Record("des", dict(case), {})
-        pop = Des.make_pop(case["n_pop"], case["ranks"])
+        pop = Des.make_pop(case["n_pop"], case["ranks"], case.get("crowd_attr"))
         np.random.seed(case["seed"])
         import warnings
         with Recorder("replay" if replay is not None else "record", replay) as R:
@@ -753,7 +820,7 @@ class Des:
     @staticmethod
     def encode(rec):
         c = rec.cfg
-        rk = [-1] * c["n_pop"] if c["ranks"] is None else [-1 if r is None else r for r in c["ranks"]]
+        rk = ranks_for_model(c["ranks"], c["n_pop"])
         return " ".join(["des", c["kind"], str(c["n_pop"]), str(c.get("n_sel", c["n_pop"])), str(c["n_par"])] + proto.ilist(rk)
                         + proto.events(rec.draws))
 
@@ -929,7 +996,7 @@ class Variant:
     def encode(rec):
         c = rec.cfg
         n = len(rec.inp["PX"])
-        rk = [-1] * n if c["ranks"] is None else [-1 if r is None else r for r in c["ranks"]]
+        rk = ranks_for_model(c["ranks"], n)
         # with a genetic mutation the log continues after the crossover: only the DE part is sent
         draws = rec.draws
         if c["pm"]:
